@@ -1311,6 +1311,7 @@ func (schema *Schema) visitXOFOperations(settings *schemaValidationSettings, val
 				discriminatorVal, okcheck := valuemap[pn]
 				if !okcheck {
 					return &SchemaError{
+						Value:       value,
 						Schema:      schema,
 						SchemaField: "discriminator",
 						Reason:      fmt.Sprintf("input does not contain the discriminator property %q", pn),
@@ -1321,6 +1322,7 @@ func (schema *Schema) visitXOFOperations(settings *schemaValidationSettings, val
 				if !okcheck {
 					return &SchemaError{
 						Value:       discriminatorVal,
+						reversePath: []string{pn},
 						Schema:      schema,
 						SchemaField: "discriminator",
 						Reason:      fmt.Sprintf("value of discriminator property %q is not a string", pn),
@@ -1330,6 +1332,7 @@ func (schema *Schema) visitXOFOperations(settings *schemaValidationSettings, val
 				if discriminatorRef, okcheck = schema.Discriminator.Mapping[discriminatorValString]; len(schema.Discriminator.Mapping) > 0 && !okcheck {
 					return &SchemaError{
 						Value:       discriminatorVal,
+						reversePath: []string{pn},
 						Schema:      schema,
 						SchemaField: "discriminator",
 						Reason:      fmt.Sprintf("discriminator property %q has invalid value", pn),
